@@ -37,15 +37,16 @@ VARIABLES tid, l, ok, why, failedAt,
           maxw,        \* largest max_workers in force
           hasTmo,      \* the executor has an idle timeout
           multi,       \* several user threads call the API
+          tmoInCall,   \* idle-timeout exits since the current get_reusable_executor call began
           liveAtCall,  \* workers alive when the current get_reusable_executor call began
           subAfterShut \* tasks accepted after a shutdown began (must not happen)
 vars == <<tid, l, ok, why, failedAt, kindOf, started, finished, resolved, cancelled, cancelling, running, live, crashed, crashedSettled, brokenSeen,
-          shutdownAt, shutRet, exited, deleted, timeouts, maxw, hasTmo, multi, liveAtCall, subAfterShut>>
+          shutdownAt, shutRet, exited, deleted, timeouts, maxw, hasTmo, multi, tmoInCall, liveAtCall, subAfterShut>>
 
 Init == /\ tid \in 1..Len(Traces) /\ l = 1 /\ ok = TRUE /\ why = "none" /\ failedAt = 0
         /\ kindOf = <<>> /\ started = <<>> /\ finished = {} /\ resolved = <<>> /\ cancelled = {} /\ cancelling = {} /\ running = {}
         /\ live = {} /\ crashed = FALSE /\ crashedSettled = FALSE /\ brokenSeen = FALSE /\ shutdownAt = "none" /\ shutRet = FALSE
-        /\ exited = FALSE /\ deleted = FALSE /\ timeouts = 0 /\ maxw = 0 /\ hasTmo = FALSE /\ multi = FALSE /\ liveAtCall = {} /\ subAfterShut = {}
+        /\ exited = FALSE /\ deleted = FALSE /\ timeouts = 0 /\ maxw = 0 /\ hasTmo = FALSE /\ multi = FALSE /\ tmoInCall = 0 /\ liveAtCall = {} /\ subAfterShut = {}
 
 Ev == Traces[tid][l]
 Get(f, k, d) == IF k \in DOMAIN f THEN f[k] ELSE d
@@ -56,16 +57,16 @@ Check(cs) == LET bad == {i \in 1..Len(cs) : cs[i][1] = Prop /\ cs[i][2]} IN
              IF bad = {} THEN Fine
              ELSE LET i == CHOOSE x \in bad : \A y \in bad : x <= y IN ok' = FALSE /\ why' = cs[i][3] /\ failedAt' = l
 
-TaskFailKinds == {"raise", "sysexit", "kbint", "unpicklable_arg", "too_large", "unpicklable_result", "unpicklable_exc"}
+TaskFailKinds == {"raise", "sysexit", "kbint", "unpicklable_arg", "oserror_arg", "too_large", "unpicklable_result", "unpicklable_exc"}
 \* kinds whose failure legitimately breaks the pool (the property excludes them from containment)
 BreakingKinds == {"crash", "unloadable_arg", "unloadable_result"}
 Disturbed == crashed \/ (\E t \in DOMAIN kindOf : kindOf[t] \in BreakingKinds)
 ExpectedType(k) == CASE k = "raise" -> "ValueError" [] k = "sysexit" -> "SystemExit" [] k = "kbint" -> "KeyboardInterrupt"
-                     [] k = "unpicklable_arg" -> "PicklingError" [] k = "too_large" -> "RuntimeError"
+                     [] k = "unpicklable_arg" -> "PicklingError" [] k = "oserror_arg" -> "PicklingError" [] k = "too_large" -> "RuntimeError"
                      [] OTHER -> "any"      \* unpicklable result / exception: some exception, but only for this future
 
 State == <<kindOf, started, finished, resolved, cancelled, cancelling, running, live, crashed, crashedSettled, brokenSeen, shutdownAt, shutRet,
-           exited, deleted, timeouts, maxw, hasTmo, multi, liveAtCall, subAfterShut>>
+           exited, deleted, timeouts, maxw, hasTmo, multi, tmoInCall, liveAtCall, subAfterShut>>
 \* after the first failing clause the rest of the trace is skipped; the verdict is printed once per trace
 Skip == /\ ~ok /\ l <= Len(Traces[tid]) /\ l' = l + 1 /\ tid' = tid /\ UNCHANGED <<ok, why, failedAt, State>>
 Report == /\ l = Len(Traces[tid]) + 1 /\ l' = l + 1 /\ tid' = tid /\ UNCHANGED <<ok, why, failedAt, State>>
@@ -75,11 +76,11 @@ Step ==
   /\ LET e == Ev IN
      CASE e.ev = "cfg" ->
             /\ maxw' = e.maxw /\ hasTmo' = e.wait /\ multi' = e.kill /\ crashed' = e.res        \* res: the scenario contains a failing initializer (breaks the pool)
-            /\ UNCHANGED <<kindOf, started, finished, resolved, cancelled, cancelling, running, live, crashedSettled, brokenSeen, shutdownAt, shutRet, exited, deleted, timeouts, liveAtCall, subAfterShut>> /\ Fine
+            /\ UNCHANGED <<kindOf, started, finished, resolved, cancelled, cancelling, running, live, crashedSettled, brokenSeen, shutdownAt, shutRet, exited, deleted, timeouts, tmoInCall, liveAtCall, subAfterShut>> /\ Fine
        [] e.ev = "submit" ->
             /\ kindOf' = Put(kindOf, e.t, e.kind)
             /\ subAfterShut' = IF shutdownAt # "none" \/ exited THEN subAfterShut \cup {e.t} ELSE subAfterShut
-            /\ UNCHANGED <<started, finished, resolved, cancelled, cancelling, running, live, crashed, crashedSettled, brokenSeen, shutdownAt, shutRet, exited, deleted, timeouts, maxw, hasTmo, multi, liveAtCall>>
+            /\ UNCHANGED <<started, finished, resolved, cancelled, cancelling, running, live, crashed, crashedSettled, brokenSeen, shutdownAt, shutRet, exited, deleted, timeouts, maxw, hasTmo, multi, tmoInCall, liveAtCall>>
             /\ Check(<< <<"C05", shutRet, "C05: submit() was accepted after shutdown() had returned">>,
                         <<"C06", shutRet, "C06: submit() was accepted after shutdown(kill_workers=True) had returned">>,
                         <<"C02", brokenSeen, "C02: submit() was accepted after the pool had failed futures with BrokenProcessPool">>,
@@ -87,7 +88,7 @@ Step ==
                         <<"C18", crashedSettled /\ e.kind = "probe" /\ timeouts = 0, "C18: an initializer failure did not break the pool">> >>)
        [] e.ev = "submit_rejected" ->
             /\ brokenSeen' = (brokenSeen \/ e.bpp)
-            /\ UNCHANGED <<kindOf, started, finished, resolved, cancelled, cancelling, running, live, crashed, crashedSettled, shutdownAt, shutRet, exited, deleted, timeouts, maxw, hasTmo, multi, liveAtCall, subAfterShut>>
+            /\ UNCHANGED <<kindOf, started, finished, resolved, cancelled, cancelling, running, live, crashed, crashedSettled, shutdownAt, shutRet, exited, deleted, timeouts, maxw, hasTmo, multi, tmoInCall, liveAtCall, subAfterShut>>
             /\ Check(<< <<"C04", e.bpp /\ ~Disturbed, "C04: submit() raised BrokenProcessPool although no worker died: a task-level failure broke the pool">>,
                         <<"C07", e.bpp /\ ~Disturbed, "C07: submit() raised BrokenProcessPool in a run with idle timeouts only">>,
                         <<"C05", e.bpp /\ ~Disturbed, "C05: the pool was flagged broken during a graceful shutdown">>,
@@ -97,7 +98,7 @@ Step ==
        [] e.ev = "start" ->
             /\ started' = Put(started, e.t, Get(started, e.t, 0) + 1)
             /\ running' = running \cup {<<e.t, e.pid>>}
-            /\ UNCHANGED <<kindOf, finished, resolved, cancelled, cancelling, live, crashed, crashedSettled, brokenSeen, shutdownAt, shutRet, exited, deleted, timeouts, maxw, hasTmo, multi, liveAtCall, subAfterShut>>
+            /\ UNCHANGED <<kindOf, finished, resolved, cancelled, cancelling, live, crashed, crashedSettled, brokenSeen, shutdownAt, shutRet, exited, deleted, timeouts, maxw, hasTmo, multi, tmoInCall, liveAtCall, subAfterShut>>
             /\ Check(<< <<"C03", Get(started, e.t, 0) >= 1, "C03: a task body was executed twice">>,
                         <<"C07", Get(started, e.t, 0) >= 1, "C07: a task was duplicated">>,
                         <<"C03", e.t \in cancelled, "C03: a task ran although cancel() had returned True">>,
@@ -105,18 +106,18 @@ Step ==
        [] e.ev = "finish" ->
             /\ finished' = finished \cup {e.t}
             /\ running' = running \ {<<e.t, e.pid>>}
-            /\ UNCHANGED <<kindOf, started, resolved, cancelled, cancelling, live, crashed, crashedSettled, brokenSeen, shutdownAt, shutRet, exited, deleted, timeouts, maxw, hasTmo, multi, liveAtCall, subAfterShut>> /\ Fine
+            /\ UNCHANGED <<kindOf, started, resolved, cancelled, cancelling, live, crashed, crashedSettled, brokenSeen, shutdownAt, shutRet, exited, deleted, timeouts, maxw, hasTmo, multi, tmoInCall, liveAtCall, subAfterShut>> /\ Fine
        [] e.ev = "cancel_call" ->
             /\ cancelling' = cancelling \cup {e.t}
-            /\ UNCHANGED <<kindOf, started, finished, resolved, cancelled, running, live, crashed, crashedSettled, brokenSeen, shutdownAt, shutRet, exited, deleted, timeouts, maxw, hasTmo, multi, liveAtCall, subAfterShut>> /\ Fine
+            /\ UNCHANGED <<kindOf, started, finished, resolved, cancelled, running, live, crashed, crashedSettled, brokenSeen, shutdownAt, shutRet, exited, deleted, timeouts, maxw, hasTmo, multi, tmoInCall, liveAtCall, subAfterShut>> /\ Fine
        [] e.ev = "cancel" ->
             /\ cancelled' = IF e.res \/ Get(resolved, e.t, "") = "cancelled" THEN cancelled \cup {e.t} ELSE cancelled \ {e.t}
-            /\ UNCHANGED <<kindOf, started, finished, resolved, cancelling, running, live, crashed, crashedSettled, brokenSeen, shutdownAt, shutRet, exited, deleted, timeouts, maxw, hasTmo, multi, liveAtCall, subAfterShut>>
+            /\ UNCHANGED <<kindOf, started, finished, resolved, cancelling, running, live, crashed, crashedSettled, brokenSeen, shutdownAt, shutRet, exited, deleted, timeouts, maxw, hasTmo, multi, tmoInCall, liveAtCall, subAfterShut>>
             /\ Check(<< <<"C03", e.res /\ Get(started, e.t, 0) >= 1, "C03: cancel() returned True for a task that had already started">> >>)
        [] e.ev = "resolve" ->
             /\ resolved' = Put(resolved, e.t, e.outcome)
             /\ brokenSeen' = (brokenSeen \/ (e.outcome = "exception" /\ e.bpp))
-            /\ UNCHANGED <<kindOf, started, finished, cancelled, cancelling, running, live, crashed, crashedSettled, shutdownAt, shutRet, exited, deleted, timeouts, maxw, hasTmo, multi, liveAtCall, subAfterShut>>
+            /\ UNCHANGED <<kindOf, started, finished, cancelled, cancelling, running, live, crashed, crashedSettled, shutdownAt, shutRet, exited, deleted, timeouts, maxw, hasTmo, multi, tmoInCall, liveAtCall, subAfterShut>>
             /\ LET k == Get(kindOf, e.t, "unknown")
                    isBpp == e.outcome = "exception" /\ e.bpp
                    isShut == e.outcome = "exception" /\ e.shut
@@ -133,23 +134,24 @@ Step ==
                  <<"C04", ~Disturbed /\ k \in TaskFailKinds /\ e.outcome = "result", "C04: a failing task's future holds a result">>,
                  <<"C04", ~Disturbed /\ k \notin TaskFailKinds /\ k # "unknown" /\ taskExc, "C04: a sibling of a failing task did not get its own outcome">>,
                  <<"C04", ~Disturbed /\ taskExc /\ ExpectedType(k) # "any" /\ e.etype # ExpectedType(k), "C04: the future's exception is not the task's own exception type">>,
-                 <<"C04", ~Disturbed /\ taskExc /\ k \in {"raise", "sysexit", "kbint", "unpicklable_arg", "too_large"} /\ ~e.cause, "C04: the remote traceback is not attached as __cause__">>,
+                 <<"C04", ~Disturbed /\ taskExc /\ k \in {"raise", "sysexit", "kbint", "unpicklable_arg", "oserror_arg", "too_large"} /\ ~e.cause, "C04: the remote traceback is not attached as __cause__">>,
                  <<"C05", isShut /\ shutdownAt # "kill", "C05: a submitted task was dropped with ShutdownExecutorError by a graceful shutdown">>,
                  <<"C06", isShut /\ shutdownAt # "kill", "C06: ShutdownExecutorError without kill_workers">>,
-                 <<"C02", brokenSeen /\ taskExc /\ e.t \notin finished /\ k \notin {"unpicklable_arg", "too_large"}, "C02: a future failed with a task-level error although its task never ran">>
+                 <<"C02", brokenSeen /\ taskExc /\ e.t \notin finished /\ k \notin {"unpicklable_arg", "oserror_arg", "too_large"}, "C02: a future failed with a task-level error although its task never ran">>
                >>)
        [] e.ev = "spawn" ->
             /\ live' = live \cup {e.pid}
-            /\ UNCHANGED <<kindOf, started, finished, resolved, cancelled, cancelling, running, crashed, crashedSettled, brokenSeen, shutdownAt, shutRet, exited, deleted, timeouts, maxw, hasTmo, multi, liveAtCall, subAfterShut>>
+            /\ UNCHANGED <<kindOf, started, finished, resolved, cancelled, cancelling, running, crashed, crashedSettled, brokenSeen, shutdownAt, shutRet, exited, deleted, timeouts, maxw, hasTmo, multi, tmoInCall, liveAtCall, subAfterShut>>
             /\ Fine
        [] e.ev = "reg" ->
-            /\ UNCHANGED <<kindOf, started, finished, resolved, cancelled, cancelling, running, live, crashed, crashedSettled, brokenSeen, shutdownAt, shutRet, exited, deleted, timeouts, maxw, hasTmo, multi, liveAtCall, subAfterShut>>
+            /\ UNCHANGED <<kindOf, started, finished, resolved, cancelled, cancelling, running, live, crashed, crashedSettled, brokenSeen, shutdownAt, shutRet, exited, deleted, timeouts, maxw, hasTmo, multi, tmoInCall, liveAtCall, subAfterShut>>
             /\ Check(<< <<"C08", maxw > 0 /\ e.n > maxw, "C08: more than max_workers workers are registered">> >>)
        [] e.ev = "die" ->
             /\ live' = live \ {e.pid}
             /\ running' = {x \in running : x[2] # e.pid}
             /\ crashed' = (crashed \/ (e.how = "crash" /\ ~e.late))
             /\ timeouts' = IF e.how = "exit" THEN timeouts + 1 ELSE timeouts
+            /\ tmoInCall' = IF e.how = "exit" /\ e.reason = "timeout" THEN tmoInCall + 1 ELSE tmoInCall
             /\ UNCHANGED <<kindOf, started, finished, resolved, cancelled, cancelling, crashedSettled, brokenSeen, shutdownAt, shutRet, exited, deleted, maxw, hasTmo, multi, liveAtCall, subAfterShut>>
             /\ Check(<< <<"C05", e.how = "exit" /\ e.code # 0 /\ ~Disturbed, "C05: a worker left with a non-zero exit status during a graceful run">>,
                         <<"C07", e.how = "killed" /\ ~Disturbed /\ shutdownAt # "kill", "C07: a worker was killed in a run with idle timeouts only (timeout exit reported as a crash)">>,
@@ -157,10 +159,10 @@ Step ==
                         <<"C07", e.how = "exit" /\ (\E x \in running : x[2] = e.pid), "C07: a worker left while it was holding a task">> >>)
        [] e.ev = "shutdown_call" ->
             /\ shutdownAt' = IF e.kill THEN "kill" ELSE IF shutdownAt = "kill" THEN "kill" ELSE "graceful"
-            /\ UNCHANGED <<kindOf, started, finished, resolved, cancelled, cancelling, running, live, crashed, crashedSettled, brokenSeen, shutRet, exited, deleted, timeouts, maxw, hasTmo, multi, liveAtCall, subAfterShut>> /\ Fine
+            /\ UNCHANGED <<kindOf, started, finished, resolved, cancelled, cancelling, running, live, crashed, crashedSettled, brokenSeen, shutRet, exited, deleted, timeouts, maxw, hasTmo, multi, tmoInCall, liveAtCall, subAfterShut>> /\ Fine
        [] e.ev = "shutdown_ret" ->
             /\ shutRet' = (shutRet \/ e.wait)
-            /\ UNCHANGED <<kindOf, started, finished, resolved, cancelled, cancelling, running, live, crashed, crashedSettled, brokenSeen, shutdownAt, exited, deleted, timeouts, maxw, hasTmo, multi, liveAtCall, subAfterShut>>
+            /\ UNCHANGED <<kindOf, started, finished, resolved, cancelled, cancelling, running, live, crashed, crashedSettled, brokenSeen, shutdownAt, exited, deleted, timeouts, maxw, hasTmo, multi, tmoInCall, liveAtCall, subAfterShut>>
             /\ Check(<< <<"C05", e.wait /\ ~e.kill /\ live # {} /\ ~Disturbed, "C05: shutdown(wait=True) returned while workers are still alive">>,
                         <<"C06", e.wait /\ e.kill /\ live # {}, "C06: shutdown(kill_workers=True) returned while workers are still alive">>,
                         <<"C05", e.wait /\ ~e.kill /\ ~Disturbed /\ (\E t \in DOMAIN kindOf : t \notin DOMAIN resolved /\ t \notin subAfterShut),
@@ -168,38 +170,46 @@ Step ==
                         <<"C06", e.wait /\ e.kill /\ (\E t \in DOMAIN kindOf : t \notin DOMAIN resolved), "C06: shutdown(kill_workers=True) returned and left a future unresolved">> >>)
        [] e.ev = "exit_call" ->
             /\ exited' = TRUE
-            /\ UNCHANGED <<kindOf, started, finished, resolved, cancelled, cancelling, running, live, crashed, crashedSettled, brokenSeen, shutdownAt, shutRet, deleted, timeouts, maxw, hasTmo, multi, liveAtCall, subAfterShut>> /\ Fine
+            /\ UNCHANGED <<kindOf, started, finished, resolved, cancelled, cancelling, running, live, crashed, crashedSettled, brokenSeen, shutdownAt, shutRet, deleted, timeouts, maxw, hasTmo, multi, tmoInCall, liveAtCall, subAfterShut>> /\ Fine
        [] e.ev = "del" ->
             /\ deleted' = TRUE
-            /\ UNCHANGED <<kindOf, started, finished, resolved, cancelled, cancelling, running, live, crashed, crashedSettled, brokenSeen, shutdownAt, shutRet, exited, timeouts, maxw, hasTmo, multi, liveAtCall, subAfterShut>> /\ Fine
+            /\ UNCHANGED <<kindOf, started, finished, resolved, cancelled, cancelling, running, live, crashed, crashedSettled, brokenSeen, shutdownAt, shutRet, exited, timeouts, maxw, hasTmo, multi, tmoInCall, liveAtCall, subAfterShut>> /\ Fine
        [] e.ev = "reuse_call" ->
-            /\ liveAtCall' = live
+            /\ liveAtCall' = live /\ tmoInCall' = 0
             /\ UNCHANGED <<kindOf, started, finished, resolved, cancelled, cancelling, running, live, crashed, crashedSettled, brokenSeen, shutdownAt, shutRet, exited, deleted, timeouts, maxw, hasTmo, multi, subAfterShut>> /\ Fine
        [] e.ev = "reuse_ret" ->
             /\ maxw' = e.n      \* a completed resize / replacement fixes the bound
             /\ shutdownAt' = (IF e.same THEN shutdownAt ELSE "none")
             /\ shutRet' = (IF e.same THEN shutRet ELSE FALSE)
             /\ brokenSeen' = (IF e.same THEN brokenSeen ELSE FALSE)
-            /\ UNCHANGED <<kindOf, started, finished, resolved, cancelled, cancelling, running, live, crashed, crashedSettled, exited, deleted, timeouts, hasTmo, multi, liveAtCall, subAfterShut>>
+            /\ UNCHANGED <<kindOf, started, finished, resolved, cancelled, cancelling, running, live, crashed, crashedSettled, exited, deleted, timeouts, hasTmo, multi, tmoInCall, liveAtCall, subAfterShut>>
             /\ Check(<< <<"C09", (e.broken \/ e.shutdown) /\ ~multi /\ ~crashed, "C09: get_reusable_executor returned an executor that is broken or shut down">>,
                         <<"C09", e.maxw # e.n, "C09: the returned executor does not have the requested max_workers">>,
                         <<"C10", e.same /\ e.nbefore > 0 /\ e.nproc # e.n /\ ~hasTmo /\ ~multi /\ ~crashed, "C10: resize returned without the requested number of workers">>,
                         <<"C10", e.same /\ e.nproc > e.n, "C10: resize returned with more workers than requested">>,
-                        <<"C10", e.same /\ ~hasTmo /\ ~multi /\ ~crashed /\ e.kept < (IF e.nbefore < e.n THEN e.nbefore ELSE e.n),
+                        <<"C10", e.same /\ ~hasTmo /\ ~multi /\ ~crashed /\ e.nbefore >= tmoInCall
+                                 /\ e.kept < (IF e.nbefore - tmoInCall < e.n THEN e.nbefore - tmoInCall ELSE e.n),
                                  "C10: resize restarted worker processes it should have kept">>,
+                        <<"C09", ~e.same /\ ~multi /\ e.oldalive > 0, "C09: a fresh executor was returned while workers of the previous instance are still alive (it was not completely shut down first)">>,
                         <<"C09", ~e.same /\ e.oldeid >= 0 /\ e.eid <= e.oldeid, "C09: a fresh executor does not have a strictly larger executor_id">>,
                         <<"C09", e.same /\ (e.oldbroken \/ e.oldshutdown), "C09: a broken or shut-down instance was reused">> >>)
        [] e.ev = "settled" ->
             /\ crashedSettled' = crashed
-            /\ UNCHANGED <<kindOf, started, finished, resolved, cancelled, cancelling, running, live, crashed, brokenSeen, shutdownAt, shutRet, exited, deleted, timeouts, maxw, hasTmo, multi, liveAtCall, subAfterShut>> /\ Fine
+            /\ UNCHANGED <<kindOf, started, finished, resolved, cancelled, cancelling, running, live, crashed, brokenSeen, shutdownAt, shutRet, exited, deleted, timeouts, maxw, hasTmo, multi, tmoInCall, liveAtCall, subAfterShut>> /\ Fine
+       [] e.ev = "timeouts_on" ->
+            /\ hasTmo' = TRUE
+            /\ UNCHANGED <<kindOf, started, finished, resolved, cancelled, cancelling, running, live, crashed, crashedSettled, brokenSeen, shutdownAt, shutRet, exited, deleted, timeouts, maxw, multi, tmoInCall, liveAtCall, subAfterShut>> /\ Fine
+       [] e.ev = "timeouts_off" ->
+            /\ hasTmo' = FALSE
+            /\ UNCHANGED <<kindOf, started, finished, resolved, cancelled, cancelling, running, live, crashed, crashedSettled, brokenSeen, shutdownAt, shutRet, exited, deleted, timeouts, maxw, multi, tmoInCall, liveAtCall, subAfterShut>> /\ Fine
        [] e.ev = "map_result" ->
-            /\ UNCHANGED <<kindOf, started, finished, resolved, cancelled, cancelling, running, live, crashed, crashedSettled, brokenSeen, shutdownAt, shutRet, exited, deleted, timeouts, maxw, hasTmo, multi, liveAtCall, subAfterShut>>
+            /\ UNCHANGED <<kindOf, started, finished, resolved, cancelled, cancelling, running, live, crashed, crashedSettled, brokenSeen, shutdownAt, shutRet, exited, deleted, timeouts, maxw, hasTmo, multi, tmoInCall, liveAtCall, subAfterShut>>
             /\ Check(<< <<"C03", ~e.good, "C03: map() did not yield list(map(fn, *iterables)) in order">> >>)
        [] e.ev = "sat_probe" ->
-            /\ UNCHANGED <<kindOf, started, finished, resolved, cancelled, cancelling, running, live, crashed, crashedSettled, brokenSeen, shutdownAt, shutRet, exited, deleted, timeouts, maxw, hasTmo, multi, liveAtCall, subAfterShut>>
+            /\ UNCHANGED <<kindOf, started, finished, resolved, cancelled, cancelling, running, live, crashed, crashedSettled, brokenSeen, shutdownAt, shutRet, exited, deleted, timeouts, maxw, hasTmo, multi, tmoInCall, liveAtCall, subAfterShut>>
             /\ Check(<< <<"C08", Cardinality(running) < e.n, "C08: fewer than max_workers long tasks run although that many are pending on a healthy executor">> >>)
        [] e.ev = "end" ->
-            /\ UNCHANGED <<kindOf, started, finished, resolved, cancelled, cancelling, running, live, crashed, crashedSettled, brokenSeen, shutdownAt, shutRet, exited, deleted, timeouts, maxw, hasTmo, multi, liveAtCall, subAfterShut>>
+            /\ UNCHANGED <<kindOf, started, finished, resolved, cancelled, cancelling, running, live, crashed, crashedSettled, brokenSeen, shutdownAt, shutRet, exited, deleted, timeouts, maxw, hasTmo, multi, tmoInCall, liveAtCall, subAfterShut>>
             /\ LET unresolved == {t \in DOMAIN kindOf : t \notin DOMAIN resolved}
                    closing == shutdownAt # "none" \/ exited \/ deleted \/ brokenSeen
                IN Check(<<
@@ -225,7 +235,7 @@ Step ==
                  <<"C20", closing /\ (e.liveprocs # <<>> \/ e.unreaped # <<>> \/ e.mgmtalive), "C20: processes or threads are left behind by a completed lifecycle">>
                >>)
        [] OTHER ->
-            /\ UNCHANGED <<kindOf, started, finished, resolved, cancelled, cancelling, running, live, crashed, crashedSettled, brokenSeen, shutdownAt, shutRet, exited, deleted, timeouts, maxw, hasTmo, multi, liveAtCall, subAfterShut>> /\ Fine
+            /\ UNCHANGED <<kindOf, started, finished, resolved, cancelled, cancelling, running, live, crashed, crashedSettled, brokenSeen, shutdownAt, shutRet, exited, deleted, timeouts, maxw, hasTmo, multi, tmoInCall, liveAtCall, subAfterShut>> /\ Fine
 
 Spec == Init /\ [][Step \/ Skip \/ Report]_vars
 =============================================================================
